@@ -161,6 +161,27 @@ def judge(ctx, cs, text, context, consts, cellinfo=None):
                               {"text": text, "context": {k: repr(v) for k, v in typed.items()}, "consts": consts,
                                "got": repr(rt[1]), "want": want})
                 return
+    # a character -- the value of a char field, or of a constant defined as a character literal -- takes part by its
+    # code, whichever of the two tables it comes from
+    if defined and hash(text) % 4 == 1:
+        cctx = {k: (bytes([v]) if i % 2 else chr(v)) if isinstance(v, int) and 0 <= v < 256 else v
+                for i, (k, v) in enumerate(sorted(context.items()))}
+        cconsts = {k: (chr(v) if i % 2 else bytes([v])) if isinstance(v, int) and 0 <= v < 256 else v
+                   for i, (k, v) in enumerate(sorted(consts.items()))}
+        if cctx != context or cconsts != consts:
+            cs.consts.clear()
+            cs.consts.update(cconsts)
+            _e3, rc_ = lib_eval(cs, text, cctx)
+            cs.consts.clear()
+            cs.consts.update(consts)
+            ctx.event("character_valued_evaluations")
+            ctx.cell("character-valued-names")
+            if rc_[0] != "ok" or rc_[1] != want:
+                ctx.violation("value", "value-differs-when-a-name-holds-a-character",
+                              {"text": text, "context": {k: repr(v) for k, v in cctx.items()},
+                               "consts": {k: repr(v) for k, v in cconsts.items()},
+                               "got": repr(rc_[1]) if rc_[0] == "ok" else lib.exc_sig(rc_[1]), "want": want})
+                return
     if e is None:
         return
     # repeatability: same object again; after a failing evaluation; with another context; vs a fresh object
